@@ -98,5 +98,14 @@ func run(prop, tier, replay string) (code int) {
 			fmt.Printf("  the construct %s no longer exists on the current tree (see the full run below)\n", filter)
 		}
 	}
+	if tier == "thorough" && !controlMode() {
+		viol := 0
+		for _, o := range r.Obligations {
+			if !o.OK {
+				viol++
+			}
+		}
+		thoroughExtras(prop, viol)
+	}
 	return r.Finish()
 }
